@@ -379,6 +379,7 @@ def drive(modname: str, tier: str, base_seed: int, jobs: int, runs_override: int
     exit_code = 0
     known_hit: dict[str, int] = {}
     known_lines: dict[int, dict] = {}  # one KNOWN-FINDING line per listed finding, whatever the number of signatures it covers
+    unreproducible: list[tuple[str, int]] = []
     new_viol: list[str] = []
     for sig in sorted(by_sig):
         vs = by_sig[sig]
@@ -408,7 +409,11 @@ def drive(modname: str, tier: str, base_seed: int, jobs: int, runs_override: int
         seed = v["seed"]
         plan, res = run_seed(mod, seed, tier)
         if sig not in _sigs(res):
-            raise HarnessError(f"violation {sig} of seed {seed} did not reproduce in the parent process (nondeterminism)")
+            # a violation seen in a worker that the parent cannot reproduce is never reported as a VIOLATION (it would not replay);
+            # other, reproducible violations of the same batch are still reported
+            unreproducible.append((sig, seed))
+            print(f"HARNESS-WARNING violation {sig} of seed {seed} did not reproduce in the parent process (order- or address-dependent behaviour of the code under test?)")
+            continue
         decisions = res["made"]
         mode = "decisions"
         r2 = run_replay(mod, seed, plan, decisions, "decisions")
@@ -488,6 +493,8 @@ def drive(modname: str, tier: str, base_seed: int, jobs: int, runs_override: int
     )
     if evals == 0:
         raise HarnessError("no run executed")
+    if unreproducible and exit_code == 0:
+        raise HarnessError(f"{len(unreproducible)} violation signature(s) seen in workers did not reproduce in the parent process: {unreproducible[:3]}")
     return exit_code
 
 
